@@ -61,7 +61,8 @@ def relabel(vs, prop, accept):
         if v.prop == prop:
             out.append(v)
         elif v.prop in accept:
-            w = Violation(prop, v.cls, v.site, v.detail, v.case, v.variant, v.extra, v.family); out.append(w)
+            ex = dict(v.extra); ex['raw_prop'] = v.prop
+            w = Violation(prop, v.cls, v.site, v.detail, v.case, v.variant, ex, v.family); out.append(w)
     return out
 
 # ---- C03: one packet per picture, in order, with timestamps and EOS ----------------------------------------
